@@ -31,11 +31,68 @@ DOC_BUILTINS = {"String", "&str", "str", "i8", "i16", "i32", "i64", "i128", "isi
                 "char", "HashMap", "BTreeMap", "HashSet", "BTreeSet", "Vec", "Option", "Result", "Box", "Rc", "Arc"}
 
 
+def check_stale_harvest_reads(P, rule, reach):
+    """what is harvested is what was extracted: in a function that harvests type names, a field that the function itself assigns (`command.channels =
+    channels`) is not the harvest's source at a point *before* that assignment — there it still holds the parser's placeholder (an empty list),
+    and the names of the freshly extracted values are never queued for discovery."""
+    HARV = ("CommandAnalyzer::extract_type_names", "CommandAnalyzer::extract_type_names_recursive", "TypeCollector::collect_referenced_types_from_structure")
+    n = 0
+    for fid in sorted(reach):
+        f = P.fns.get(fid)
+        if f is None or "{closure" in fid or "{promoted" in fid:
+            continue
+        clos = {k for k in P.family(fid) if "::{closure" in k and any(short_path(c.best) in HARV for c in P.fns[k].calls)}
+        if not clos and not any(short_path(c.best) in HARV for c in f.calls):
+            continue
+        assigns = []
+        for b in sorted(f.reach_blocks):
+            for i, st in enumerate(f.blocks[b]["stmts"]):
+                lhs = st.get("lhs")
+                if lhs and lhs.get("p") and lhs["p"][-1].get("k") == "field" and lhs["p"][-1].get("name") and st.get("rv", {}).get("k") in ("use",):
+                    assigns.append((b, i, lhs))
+        for (ab, ai, lhs) in assigns:
+            fld = lhs["p"][-1]
+
+            def same(pl):
+                return pl.get("l") == lhs["l"] and any(pj.get("k") == "field" and pj.get("name") == fld["name"] and pj.get("adt") == fld.get("adt") for pj in pl.get("p", []))
+            # reads of the field that come before the assignment on every path (their block dominates the assignment)
+            early = []
+            for b in sorted(f.reach_blocks):
+                if not f.dominates(b, ab):
+                    continue
+                for i, st in enumerate(f.blocks[b]["stmts"]):
+                    if b == ab and i >= ai:
+                        break
+                    rv = st.get("rv") or {}
+                    pls = [rv.get("place")] + [(rv.get("op") or {}).get(k_) for k_ in ("copy", "move")] if isinstance(rv.get("op"), dict) or rv.get("place") else []
+                    if any(isinstance(pl, dict) and same(pl) for pl in pls):
+                        early.append((b, st))
+            if not early:
+                continue
+            n += 1
+            T, calls = f.forward_taint(same)
+            hit = None
+            for (c, idxs) in calls:
+                if short_path(c.best) in HARV:
+                    hit = c
+                for a_ in c.args:
+                    o = f.origin(a_)
+                    if o[0] == "aggr" and isinstance(o[1], dict) and any(k in (o[1].get("closure") or o[1].get("def") or "") for k in clos):
+                        hit = c
+                if hit is None and clos and any(any(k.endswith(g_) or g_ in k for k in clos) for g_ in (c.generics or [])):
+                    hit = c
+            if hit is not None and all(not f.dominates(ab, b) for (b, _) in early):
+                rule.bad(V(rule.id, fid, "harvest-reads-field-before-assignment:%s" % fld["name"],
+                           "%s: type names are harvested from `.%s` before the function assigns the freshly extracted value to it — at that point the field "
+                           "still holds the parser's placeholder, so the new values' types are never queued" % (short_path(fid), fld["name"]), hit.file, hit.line))
+    rule.ok("harvest sources are not fields read ahead of their assignment (%d early reads examined)" % n)
+
+
 def find_harvester(S):
     """the recursive harvester of type names: CommandAnalyzer::extract_type_names_recursive, or — after it was moved / renamed — the self-recursive
     function that the (public, pinned) entry CommandAnalyzer::extract_type_names hands its argument to"""
     fn = S.fn("CommandAnalyzer", "extract_type_names_recursive")
-    if fn is not None:
+    if fn is not None and fn.name == "extract_type_names_recursive":     # (S.fn answers with the pinned caller when the function is gone)
         return fn
     entry = S.fn("CommandAnalyzer", "extract_type_names")
     if entry is None:
@@ -555,6 +612,7 @@ def check(ctx):
     # the payload type of every emit is a root: recording an emit must not depend on what was recorded before (shared with C12-D3)
     from c12 import check_every_emit_recorded
     check_every_emit_recorded(P, r1)
+    check_stale_harvest_reads(P, r1, reach)
     r1.require_floor(10, "seed sites")
     rules.append(r1)
 
